@@ -4,6 +4,8 @@ import (
 	"fmt"
 	"math"
 	"math/rand"
+	"strings"
+	"sync"
 
 	"github.com/yaricom/goNEAT/v4/neat/genetics"
 )
@@ -27,7 +29,7 @@ func newEpochInput(r *Run, prop string, maxPop, maxEpochs int, tieFreeOnly bool)
 	opts := epochOptions(r.Rng, maxPop)
 	starts := startGenomes()
 	s := starts[r.Rng.Intn(len(starts))]
-	rule := r.Rng.Intn(3)
+	rule := []int{0, 1, 2, 9}[r.Rng.Intn(4)]
 	if !tieFreeOnly && opts.PopSize <= 12 && r.Rng.Intn(3) == 0 {
 		rule = 3 + r.Rng.Intn(2)
 	}
@@ -72,7 +74,9 @@ func subnormalOvershoot(r *Run, prop string) {
 // +Inf, the population average is +Inf, the expected offspring of organism 0 is Inf/Inf = NaN, int(math.Floor(NaN))
 // is the most negative int on amd64, every quota ends up zero or negative, the fallback finds no species to keep,
 // all species are purged and prepareForReproduction indexes the empty sorted list (panic).  The random family
-// (fitness rule 8, any options) looks for other failures of the same kind.
+// (fitness rule 8, any options) looks for other failures of the same kind (Go-side oracle only); the designated
+// input k == 0 is additionally written as a model-compared case (props/C02.v C02_epoch_panics_on_boost_overflow
+// proves the same outcome of the model on the Coq side).
 func fitnessOverflow(r *Run, prop string) {
 	for k := 0; k < r.N(4, 40); k++ {
 		opts := baseOptions()
@@ -82,8 +86,80 @@ func fitnessOverflow(r *Run, prop string) {
 			opts.PopSize, opts.CompatThreshold, opts.AgeSignificance = 4, 1e9, 1.1
 		}
 		in := &epochInput{Prop: prop, Seed: 11 + int64(k), Opts: opts, Start: genomeText(readPlain(xorStart, 1)), Epochs: 2, FitRule: 8}
+		if k == 0 {
+			// the designated input is also compared with the model: Go's int(x) is modelled as compiled for amd64
+			// (coq/base/F64.v f_trunc_Z: NaN, +-Inf and everything outside [-2^63, 2^63) convert to math.MinInt64), so
+			// the model's next_epoch must fail on this input as the implementation does (es_go := None matches a
+			// GoErr/GoPanic outcome of the model: cases/EpochCases.v run_steps); a model that totalises int(NaN) to
+			// 0 returns Ok here and the case is reported as a mismatch.  Shard and case id lie outside the ranges
+			// the main loop of runEpochProp uses.
+			cf := r.NewCaseFile(9008, "Res F64 Genome Options GenomeLit EpochCases "+prop+"Cases", "epoch_case")
+			runHistory(r, in, cf, 900801)
+			cf.Close("epoch_mismatches")
+			continue
+		}
 		runHistory(r, in, nil, 0)
 	}
+}
+
+// counterHammer: the two issue counters of a population handed out from many goroutines at once (as the parallel
+// executor's reproduction goroutines do): every caller must receive a number no other caller receives, and the
+// numbers issued are exactly the next ones (nothing skipped, nothing repeated).
+func counterHammer(r *Run, prop string) {
+	quiet()
+	rand.Seed(5)
+	pop, err := genetics.NewPopulation(readPlain(xorStart, 1), baseOptions())
+	if err != nil {
+		return
+	}
+	const workers, per = 16, 4000
+	in := map[string]interface{}{"kind": "counter-hammer", "goroutines": workers, "calls_each": per}
+	for round, name := range []string{"NextInnovationNumber", "NextNodeId"} {
+		got := make([][]int64, workers)
+		var wg sync.WaitGroup
+		start := make(chan struct{})
+		for w := 0; w < workers; w++ {
+			wg.Add(1)
+			go func(w int) {
+				defer wg.Done()
+				<-start
+				out := make([]int64, per)
+				for i := range out {
+					if round == 0 {
+						out[i] = pop.NextInnovationNumber()
+					} else {
+						out[i] = int64(pop.NextNodeId())
+					}
+				}
+				got[w] = out
+			}(w)
+		}
+		close(start)
+		wg.Wait()
+		seen := map[int64]bool{}
+		lo, hi := int64(1<<62), int64(-1)
+		dup := int64(-1)
+		for _, out := range got {
+			for _, v := range out {
+				if seen[v] {
+					dup = v
+				}
+				seen[v] = true
+				if v < lo {
+					lo = v
+				}
+				if v > hi {
+					hi = v
+				}
+			}
+		}
+		if dup >= 0 {
+			r.Fail(Failure{Key: "counter-issued-twice " + name, What: fmt.Sprintf("%s handed the value %d to two callers", name, dup), Input: in})
+		} else if hi-lo+1 != workers*per {
+			r.Fail(Failure{Key: "counter-not-consecutive " + name, What: fmt.Sprintf("%s issued %d values spanning %d..%d", name, workers*per, lo, hi), Input: in})
+		}
+	}
+	r.Hist("counter_hammer", "16 goroutines x 4000 calls x 2 counters")
 }
 
 func runEpochProp(r *Run, prop string) error {
@@ -136,6 +212,35 @@ func runEpochProp(r *Run, prop string) error {
 			r.Hist("random_population_epochs_run", bucket(res.epochsRun))
 		}
 	}
+	if prop == "C03" {
+		counterHammer(r, prop)
+	}
+	if prop == "C03" {
+		// modular start genomes (control genes numbered right after the links): outside the Coq model of the
+		// epoch, Go-side registry oracle only; the counters must start past the modules' numbers and node ids
+		for i := 0; i < r.N(8, 100); i++ {
+			in := newEpochInput(r, prop, 30, 8, true)
+			starts := startGenomes()
+			if m := withModule(r.Rng, starts[r.Rng.Intn(len(starts))], i%2 == 0); m != nil {
+				in.Start = genomeText(m)
+				res := runHistory(r, in, nil, 0)
+				r.Count(fmt.Sprint("modular", in.Seed), res.structural > 0)
+				r.Hist("modular_start_epochs_run", bucket(res.epochsRun))
+			}
+		}
+	}
+	// the same guarantees under the parallel executor (goroutine per species; not schedule-reproducible, so
+	// Go-side oracle only; the race-freedom side of it is C16's subject)
+	for i := 0; i < r.N(10, 150); i++ {
+		in := newEpochInput(r, prop, 50, 12, true)
+		in.Parallel = true
+		if i%2 == 0 {
+			in.Opts.CompatThreshold = 0.5 + r.Rng.Float64() // many small species: a best species that is replaced
+		}
+		res := runHistory(r, in, nil, 0)
+		r.Count(fmt.Sprint("parallel", in.Seed), res.multi > 0)
+		r.Hist("parallel_executor_epochs_run", bucket(res.epochsRun))
+	}
 	// larger populations and longer runs: Go-side oracle only (tie-free fitness)
 	for i := 0; i < r.N(30, 600); i++ {
 		in := newEpochInput(r, prop, 70, 25, true)
@@ -144,6 +249,71 @@ func runEpochProp(r *Run, prop string) error {
 		r.Hist("oracle_only_epochs_run", bucket(res.epochsRun))
 	}
 	return nil
+}
+
+// c10UnsortedGenes: "all populations" includes those whose genomes were written by hand: a start genome whose gene
+// lines are not in innovation order is accepted by the readers and by Population.Verify.  Its champion's copy
+// must still be an unmodified copy (same genes in the same order).  Mutation-only reproduction, so that the
+// crossovers (which presuppose the order) stay out of it.
+func c10UnsortedGenes(r *Run) {
+	const text = "genomestart 1\ntrait 1 0.1 0 0 0 0 0 0 0\n" +
+		"node 1 1 1 1 NullActivation\nnode 2 1 1 1 NullActivation\nnode 3 1 1 3 NullActivation\nnode 4 1 0 2 SigmoidSteepenedActivation\nnode 5 1 0 0 SigmoidSteepenedActivation\n" +
+		"gene 1 3 4 0.75 false 3 0.75 true\ngene 1 1 4 0.5 false 1 0.5 true\ngene 1 5 4 -1.25 false 5 -1.25 true\ngene 1 2 5 -0.5 false 2 -0.5 true\ngene 1 1 5 1.5 false 4 1.5 true\n" +
+		"genomeend 1\n"
+	for k := 0; k < r.N(4, 40); k++ {
+		opts := epochOptions(r.Rng, 40)
+		if opts.PopSize < 12 {
+			opts.PopSize = 12
+		}
+		opts.MutateOnlyProb, opts.CompatThreshold, opts.BabiesStolen = 1.0, 6, 0
+		in := &epochInput{Prop: "C10", Seed: 31 + int64(k), Opts: opts, Start: map[string]string{"format": "plain", "text": text}, Epochs: 2, FitRule: k % 3}
+		res := runPhased(r, in)
+		r.Count(fmt.Sprint("unsorted", in.Seed), res.champs > 0)
+		// the same genomes loaded as a population file (no duplication on the way in): one species of 12, so its
+		// quota is 12 and the fittest organism's genome must reappear unchanged, genes in the order of the file
+		var sb strings.Builder
+		for id := 1; id <= 12; id++ {
+			sb.WriteString(strings.Replace(strings.Replace(text, "genomestart 1", fmt.Sprint("genomestart ", id), 1), "genomeend 1", fmt.Sprint("genomeend ", id), 1))
+		}
+		o2 := *opts
+		o2.PopSize, o2.CompatThreshold = 12, 1e6
+		rand.Seed(in.Seed)
+		pop, err := genetics.ReadPopulation(strings.NewReader(sb.String()), &o2)
+		if err != nil || len(pop.Organisms) != 12 || len(pop.Species) != 1 {
+			continue
+		}
+		best := 0
+		for i, o := range pop.Organisms {
+			o.Fitness = fitnessFor(0, k, i, o.Genotype)
+			if o.Fitness > pop.Organisms[best].Fitness {
+				best = i
+			}
+		}
+		champ := snap(pop.Organisms[best].Genotype)
+		input := map[string]interface{}{"kind": "population file with gene lines out of innovation order", "text": sb.String(), "opts": &o2, "seed": in.Seed, "fitness_rule": 0}
+		var eerr error
+		func() {
+			defer func() {
+				if p := recover(); p != nil {
+					eerr = fmt.Errorf("panic: %v", p)
+				}
+			}()
+			eerr = (&genetics.SequentialPopulationEpochExecutor{}).NextEpoch(o2.NeatContext(), k, pop)
+		}()
+		if eerr != nil {
+			continue // what else such a population may do is not this property's subject
+		}
+		found := false
+		for _, o := range pop.Organisms {
+			if champ.eq(snap(o.Genotype)) {
+				found = true
+			}
+		}
+		if !found {
+			r.Fail(Failure{Key: "champion-lost", What: "a species of 12 read from a population file (gene lines not in innovation order): no unmodified copy of its fittest organism's genome in the next generation", Input: input})
+		}
+		r.Hist("unsorted_population_file", "checked")
+	}
 }
 
 // c10RoundingTie is the designated demonstration of a recorded finding: two raw fitness values one ulp
@@ -185,6 +355,9 @@ func runPhasedProp(r *Run, prop string) error {
 	}
 	if prop == "C09" {
 		subnormalOvershoot(r, prop)
+	}
+	if prop == "C10" {
+		c10UnsortedGenes(r)
 	}
 	// the tie between model and code for this check: whole-epoch correspondence through the public NextEpoch
 	cf := r.NewCaseFile(0, "Res F64 Genome Options GenomeLit EpochCases "+prop+"Cases", "epoch_case")
